@@ -560,7 +560,8 @@ Dot11ManagementFrame::country_params::from_option(const option& opt) {
         output.number_channels.push_back(*(ptr++));
         output.max_transmit_power.push_back(*(ptr++));
     }
-    if (ptr != end) {
+    // The element is padded with one octet when its length would be odd
+    if (end - ptr > 1) {
         throw malformed_option();
     }
     return output; 
